@@ -2,6 +2,8 @@ mod common;
 mod gen;
 mod replay;
 mod rng;
+mod svgops;
+mod wasmops;
 mod tables;
 
 fn main() {
